@@ -57,7 +57,7 @@ def families(tier):
                                      ("isotope-expl", "[%sCexpl]"), ("Hcount", "[CH%s]"), ("index-ctx", "[C][Ring1][%sC]"))]))
     from mc.props import c01
     for fname, table, members in c01.families(tier):
-        if fname in ("rings-reaching-back-over-dot", "fragments", "rings-same-pair") and table == "default":
+        if table == "default":      # every family of C01 under the default table (many rings open at once, nesting, ...)
             fams.append(("C01:" + fname, list(members)))
     # edit-distance-1 neighbourhood of well-formed strings: every printable ASCII character inserted at, or replacing, every
     # position of a seed (symbol classification is done by hand-written patterns and suffix tests: one stray character
